@@ -158,6 +158,7 @@ class Path:
         s.heap_total = 0
         s.fn_hits = set()
         s.depth = 0
+        s.max_depth = 0
 
     # ---------------------------------------------------------------- solver
     def add(s, c):
@@ -616,6 +617,7 @@ class Interp:
         p = s.p
         p.fn_hits.add(name)
         p.depth += 1
+        if p.depth > p.max_depth: p.max_depth = p.depth
         if p.depth > 400: raise PathEnd('budget', 'call depth > 400 (unbounded recursion?)')
         dec = s.w.decoder(f)
         decoded = f.decoded
